@@ -326,7 +326,7 @@ def encode_history(station: Station, events, geos):
     for ev, g in zip(events, geos):
         k = ev["ev"]
         if k == "rx":
-            a += [1, ev["now"]] + put_geo(*g) + put_list(ev["pkt"])
+            a += [1, ev["now"]] + put_geo(*g) + put_list(ev.get("model_pkt", ev["pkt"]))
         elif k == "shb":
             a += [2] + put_list(list(ev["r"]) + list(ev["payload"]))
         elif k == "geo":
@@ -482,8 +482,10 @@ def _ev_repr(ev):
 
 # ------------------------------------------------------------------ history generation
 class Source:
-    def __init__(self, rng, idx, near, n_pos=3, skew_ms=0):
+    def __init__(self, rng, idx, near, n_pos=3, skew_ms=0, rich=False):
         self.addr = (0, rng.choice([1, 5, 7, 12, 0]), 0x0A0B0C0D1000 + idx)
+        if rich:   # every station type, both values of the M bit (manually configured address)
+            self.addr = (rng.choice([0, 0, 1]), rng.randrange(13), 0x0A0B0C0D1000 + idx)
         self.pos = []
         for _ in range(n_pos):
             # within a few hundred metres of `near`, or far away
@@ -500,10 +502,15 @@ class Source:
 class Scenario:
     """builds a seeded event list for one station; `mix` weights the event kinds"""
 
-    def __init__(self, rng, station: Station, n_sources=3, mix=None, t0=None, max_skew=3000, payload_max=24):
-        self.rng, self.st = rng, station
+    def __init__(self, rng, station: Station, n_sources=3, mix=None, t0=None, max_skew=3000, payload_max=24, rich=False):
+        """rich (off by default, so that existing users keep their input stream): received packets carry every header
+        field at varied values - speed (15-bit signed incl. both range ends) and heading, the mobility flag of a
+        stationary source, the channel-offload bit of the traffic class, lifetime codes of every base, station types
+        0..12 and the M bit of the source address - instead of the constants of the reference builders"""
+        self.rng, self.st, self.rich = rng, station, rich
+        self.rhl_values = None      # optional replacement of the received hop-limit values (same number of entries: 8)
         ego = (station.ego[4], station.ego[5])
-        self.sources = [Source(rng, i, ego, skew_ms=rng.choice([0, 0, 1, -1, 250, -250, max_skew, -max_skew, 999]))
+        self.sources = [Source(rng, i, ego, skew_ms=rng.choice([0, 0, 1, -1, 250, -250, max_skew, -max_skew, 999]), rich=rich)
                         for i in range(n_sources)]
         self.me = (0, station.st, station.mid)
         for s in self.sources:
@@ -537,7 +544,8 @@ class Scenario:
         return (c[0], c[1], a, b, angle, shape)
 
     def rx_event(self, kind, src=None, sn=None, tst=None, rhl=None, mhl=None, de=None, area=None, payload=None,
-                 pos=None, sought=None, scf=None, nh=None):
+                 pos=None, sought=None, scf=None, nh=None, extra=None):
+        """extra: dict(s=, h=, mobile=, lt_code=, off=) overriding the header fields that are constant otherwise"""
         rng = self.rng
         s = src or rng.choice(self.sources)
         if tst is None:
@@ -547,18 +555,32 @@ class Scenario:
             s.sn = (s.sn + 1) % 65536
             sn = s.sn
         if rhl is None:
-            rhl = rng.choice([0, 1, 1, 2, 2, 3, 10, 255])
+            rhl = rng.choice(self.rhl_values or [0, 1, 1, 2, 2, 3, 10, 255])
         if mhl is None:
             mhl = rhl if rng.random() < 0.5 else rng.choice([rhl, min(255, rhl + 3), 255, max(0, rhl - 1)])
         pai = 1 if rng.random() < 0.8 else 0
         tc = ((1 if (scf if scf is not None else rng.random() < 0.25) else 0) << 7) | rng.randrange(64)
         nh = nh if nh is not None else rng.choice([1, 2, 2, 0, 3])
         payload = self._payload() if payload is None else payload
+        kw = {}
+        if self.rich:
+            kw = dict(s=rng.choice([0, 0, 1, -1, 16383, -16384, rng.randrange(-16384, 16384)]),
+                      h=rng.choice([0, 0, 1, 3599, 3600, 65535, rng.randrange(65536)]),
+                      mobile=rng.choice([1, 1, 0]),
+                      lt_code=rng.choice([(60 << 2) | 1, (60 << 2) | 1, (20 << 2) | 0, (63 << 2) | 3, (1 << 2) | 0, (1 << 2) | 2,
+                                          (63 << 2) | 0, 0, rng.randrange(256)]))
+            if rng.random() < 0.25:
+                tc |= 1 << 6             # channel offload
+        if extra:
+            ex = dict(extra)
+            if "off" in ex:
+                tc = (tc & ~(1 << 6)) | (int(bool(ex.pop("off"))) << 6)
+            kw.update(ex)
         ev = {"ev": "rx", "kind": kind, "src": s.addr, "sn": sn, "tst": tst, "pos": (la, lo), "rhl": rhl, "mhl": mhl,
-              "scf": tc >> 7, "pai": pai}
+              "scf": tc >> 7, "pai": pai, "s": kw.get("s", 0), "h": kw.get("h", 0)}
         if kind in ("beacon", "shb"):
-            pkt = (stack.beacon_bytes(s.addr, tst, la, lo, pai=pai) if kind == "beacon"
-                   else stack.shb_bytes(s.addr, tst, la, lo, payload, pai=pai, nh=nh, tc=tc))
+            pkt = (stack.beacon_bytes(s.addr, tst, la, lo, pai=pai, **kw) if kind == "beacon"
+                   else stack.shb_bytes(s.addr, tst, la, lo, payload, pai=pai, nh=nh, tc=tc, **kw))
             ev.pop("sn")
             # single-hop packets are sent with RHL = MHL = 1; a share of them arrives with other hop fields
             # (a receiver must discard RHL > MHL for every packet type)
@@ -569,11 +591,11 @@ class Scenario:
             else:
                 ev["rhl"], ev["mhl"] = 1, 1
         elif kind == "tsb":
-            pkt = stack.tsb_bytes(s.addr, sn, tst, la, lo, payload, rhl=rhl, mhl=mhl, pai=pai, nh=nh, tc=tc)
+            pkt = stack.tsb_bytes(s.addr, sn, tst, la, lo, payload, rhl=rhl, mhl=mhl, pai=pai, nh=nh, tc=tc, **kw)
         elif kind in ("gbc", "gac"):
             area = area or self._area()
             pkt = stack.gbc_bytes(s.addr, sn, tst, la, lo, area[:5], payload, ht=4 if kind == "gbc" else 3,
-                                  hst=area[5], rhl=rhl, mhl=mhl, pai=pai, nh=nh, tc=tc)
+                                  hst=area[5], rhl=rhl, mhl=mhl, pai=pai, nh=nh, tc=tc, **kw)
             ev["area"] = area
             ev["dests"] = [(area[0], area[1])]
         elif kind in ("guc", "lsrep"):
@@ -585,9 +607,9 @@ class Scenario:
                     p = rng.choice(o.pos)
                     de = (o.addr, (self.now + rng.choice([-5000, -10, 0, 10, 4000])) % 2 ** 32, p[0], p[1])
             if kind == "guc":
-                pkt = stack.guc_bytes(s.addr, sn, tst, la, lo, de, payload, rhl=rhl, mhl=mhl, pai=pai, nh=nh, tc=tc)
+                pkt = stack.guc_bytes(s.addr, sn, tst, la, lo, de, payload, rhl=rhl, mhl=mhl, pai=pai, nh=nh, tc=tc, **kw)
             else:
-                pkt = stack.ls_reply_bytes(s.addr, sn, tst, la, lo, de, rhl=rhl, mhl=mhl, pai=pai, tc=0)
+                pkt = stack.ls_reply_bytes(s.addr, sn, tst, la, lo, de, rhl=rhl, mhl=mhl, pai=pai, tc=0, **kw)
             ev["de"] = de
             dests = {(de[2], de[3]), (0, 0)}
             for x in self.sources:
@@ -597,7 +619,7 @@ class Scenario:
         elif kind == "lsreq":
             if sought is None:
                 sought = self.me if rng.random() < 0.5 else rng.choice(self.sources).addr
-            pkt = stack.ls_request_bytes(s.addr, sn, tst, la, lo, sought, rhl=rhl, mhl=mhl, pai=pai, tc=0)
+            pkt = stack.ls_request_bytes(s.addr, sn, tst, la, lo, sought, rhl=rhl, mhl=mhl, pai=pai, tc=0, **kw)
             ev["sought"] = sought
         else:
             raise KeyError(kind)
